@@ -167,6 +167,59 @@ func c08Spaces(c *fw.Ctx) {
 				emit(func(r *fw.R) { c08Msg(r, m, "offset-typed") })
 			})
 		})
+	c.Space("root", "question + one record of every name-bearing type + two NS over the names {root, example, a.example} in every position: Len ≥ Pack, exact when plain; non-trivial: escape-free common type", true,
+		func(emit func(func(*fw.R))) {
+			genRoot(false, func(m *wire.Msg) {
+				emit(func(r *fw.R) { c08Msg(r, m, "root") })
+			})
+		})
+	c.Space("zero-values", "every registered type as the Go zero value with only its header set (nil slices, empty strings: what a caller builds by hand and what Unpack returns for RDLENGTH 0), alone, twice and three times in a message, under both Compress settings: where Pack succeeds Len ≥ Pack, Len(rr) ≥ PackRR, and Pack does not fail for lack of room; non-trivial: PackRR succeeds", true,
+		func(emit func(func(*fw.R))) {
+			for _, t := range regTypes() {
+				t := t
+				emit(func(r *fw.R) {
+					mk := func() dns.RR {
+						rr := dns.TypeToRR[t]()
+						*rr.Header() = dns.RR_Header{Name: "zero.example.", Rrtype: t, Class: dns.ClassINET, Ttl: 5}
+						if t == dns.TypeOPT {
+							*rr.Header() = dns.RR_Header{Name: ".", Rrtype: t, Class: 1232}
+						}
+						return rr
+					}
+					buf := make([]byte, 1024)
+					if n, err := dns.PackRR(mk(), buf, 0, nil, false); err == nil {
+						r.Nontrivial()
+						if l := dns.Len(mk()); l < n {
+							r.Fail("len-underestimates/zero-value", "type %d zero value: Len(rr) = %d < PackRR = %d octets", t, l, n)
+						}
+					} else {
+						return // not packable as it stands: outside the statement
+					}
+					for k := 1; k <= 3; k++ {
+						for _, comp := range []bool{false, true} {
+							m := new(dns.Msg)
+							m.Compress = comp
+							m.SetQuestion("zero.example.", t)
+							for i := 0; i < k; i++ {
+								if t == dns.TypeOPT {
+									m.Extra = append(m.Extra, mk())
+								} else {
+									m.Answer = append(m.Answer, mk())
+								}
+							}
+							l := m.Len()
+							b, err := m.Pack()
+							switch {
+							case err != nil && isBufErr(err):
+								r.Fail("pack-no-room/zero-value", "%d zero-value records of type %d, Compress=%v: Pack fails for lack of room: %v (Len=%d)", k, t, comp, err, l)
+							case err == nil && l < len(b):
+								r.Fail("len-underestimates/zero-value", "%d zero-value records of type %d, Compress=%v: Len() = %d < len(Pack()) = %d", k, t, comp, l, len(b))
+							}
+						}
+					}
+				})
+			}
+		})
 	c.Space("bitmaps", "NSEC, NSEC3 and CSYNC with every subset of the type set {0,1,255,256,257,65535} (ascending) as bitmap; non-trivial: non-empty subset", true,
 		func(emit func(func(*fw.R))) {
 			set := []uint16{0, 1, 255, 256, 257, 65535}
